@@ -80,12 +80,17 @@ CHECKS = {
         "technique": "symbolic execution of the Python source on z3 real terms (solver-guided concretisation of bin indices) + SMT (QF_NRA) obligations per path, counterexample replay",
     },
     "C14": {
-        "text": "rtree.Index construction and intersection are executed on N boxes plus a query box with all 4N+4 coordinates unbounded "
-                "symbolic reals (degenerate boxes allowed); every combination of quadrant-test, recursion and pruning outcomes is a path, "
-                "and on each path z3 (linear real arithmetic) proves for every identifier that it is returned exactly when its box shares "
-                "a point with the query. Construction terminating is observed on every path.",
-        "note": "N <= 2 (quick) / N <= 3 (thorough); exact-real model of the mean-centre arithmetic; min/max as If-terms",
-        "technique": "symbolic execution of the Python source on z3 real terms + SMT (QF_LRA) obligations per path, counterexample replay",
+        "text": "Two layers. End to end: rtree.Index construction + intersection on N <= 2 boxes and a query with all coordinates "
+                "unbounded symbolic reals (degenerate boxes allowed): z3 (QF_LRA) proves per path, for every id, returned <=> boxes share "
+                "a point. Inductive step on one node (children stubbed): (A) a node built from up to 3 (thorough 4) symbolic boxes has "
+                "extent = bounding box, a leaf keeps all boxes, a split node hands every box to >= 1 strictly shorter child list "
+                "(termination); (B) a query visits exactly the children whose arbitrary symbolic extent overlaps the query and reports "
+                "exactly the overlapping leaf boxes. A+B give trees of any size by induction on the height. A failed lemma is never "
+                "reported as such: its model is lifted (far-away boxes, all list orders, probing queries) to an end-to-end brute-force "
+                "mismatch on the real code first.",
+        "note": "exact-real model of the mean-centre arithmetic; min/max as If-terms; the induction composing lemmas A and B is a paper "
+                "argument; node fan-in of the step lemmas bounded by 3/4 boxes",
+        "technique": "symbolic execution of the Python source on z3 real terms + SMT (QF_LRA) obligations per path; inductive-step lemmas with counterexample lifting and replay",
     },
     "C15": {
         "text": "Reported versions are symbolic digit strings inside the real banner; both min_version layers, EBB3.connect (solver-chosen "
